@@ -37,3 +37,41 @@ Print Assumptions C10_params_unsupplied_once_complete.
 Theorem C10_signature_lists_each_type_once : forall d g, unew_graph d = Gen.OK g -> NoDup (uparams g).
 Proof. exact uparams_nodup. Qed.
 Print Assumptions C10_signature_lists_each_type_once.
+
+(* context.Context is a parameter EXACTLY when a needed provider (a node of the graph) is Async or context.Context is
+   itself a type that a needed provider requires and nobody supplies (an argument node). *)
+Theorem C10_ctx_exactly_when : forall g,
+  In ctx_ty (uparams g) <-> (exists n, n < length (unodes g) /\ uisasync g n = true) \/ In ctx_ty (uarg_types g).
+Proof.
+  intros g. unfold uparams.
+  assert (HA : uhas_async g = true <-> exists n, n < length (unodes g) /\ uisasync g n = true).
+  { unfold uhas_async. rewrite existsb_exists. split.
+    - intros (n & Hin & Hf). exists n. split; auto. apply in_seq in Hin. simpl in Hin. apply Hin.
+    - intros (n & Hn & Hf). exists n. split; auto. apply in_seq. simpl. split; auto with arith. }
+  destruct (uhas_async g) eqn:E.
+  - split; intros _; [left; apply HA; reflexivity | left; reflexivity].
+  - split; [intros H; right; exact H | intros [H|H]; [apply HA in H; discriminate | exact H]].
+Qed.
+Print Assumptions C10_ctx_exactly_when.
+
+(* Every parameter other than context.Context is an argument node's type and conversely: the Async marks of the
+   declaration can only add context.Context in front, they never add, drop or duplicate any other parameter. *)
+Theorem C10_marks_only_decide_ctx : forall g t, t <> ctx_ty -> (In t (uparams g) <-> In t (uarg_types g)).
+Proof.
+  intros g t Ht. unfold uparams. destruct (uhas_async g); [|tauto]. split.
+  - intros [H|H]; [congruence|]. apply filter_In in H. apply H.
+  - intros H. right. apply filter_In. split; auto. destruct (N.eqb_spec t ctx_ty); [contradiction|reflexivity].
+Qed.
+Print Assumptions C10_marks_only_decide_ctx.
+
+(* ... and they keep the relative order of the other parameters (the order in which the types were first required) *)
+Theorem C10_other_params_keep_order : forall g,
+  filter (fun t => negb (N.eqb t ctx_ty)) (uparams g) = filter (fun t => negb (N.eqb t ctx_ty)) (uarg_types g).
+Proof.
+  intros g. unfold uparams. destruct (uhas_async g); auto.
+  set (f := fun t => negb (N.eqb t ctx_ty)).
+  assert (F : forall l, filter f (filter f l) = filter f l).
+  { induction l as [|a l IH]; cbn [filter]; auto. destruct (f a) eqn:E; cbn [filter]; [rewrite E, IH|]; auto. }
+  cbn [filter]. replace (f ctx_ty) with false by reflexivity. apply F.
+Qed.
+Print Assumptions C10_other_params_keep_order.
